@@ -133,6 +133,23 @@ def programs_side(tier):
                 yield par, edges, marks, 'single'
 
 
+def programs_scale(tier):
+    """large trees: wide fan-out below the root and below a generator child, long chains (hidden limits on counters or batch
+    sizes would show here)"""
+    sizes = (40, 150, 300) if tier == 'quick' else (40, 127, 128, 129, 150, 300, 1000)
+    for n in sizes:
+        # fan-out n below the root (plain), and below a child that fires them from a generator step
+        yield (None,) + (0,) * n, (None,) + ('plain',) * n, ('none',) * (n + 1), 'single'
+        yield (None, 0) + (1,) * n, (None, 'plain') + ('gen',) * n, ('none',) * (n + 2), 'single'
+        # one cancelled / raising leaf among many
+        yield (None,) + (0,) * n, (None,) + ('plain',) * n, ('none',) * n + ('cancel',), 'single'
+        yield (None,) + (0,) * n, (None,) + ('gen',) * n, ('none', 'raise') + ('none',) * (n - 1), 'double'
+    for depth in ((30, 100) if tier == 'quick' else (30, 100, 400)):
+        par = (None,) + tuple(range(depth))
+        yield par, (None,) + ('plain',) * depth, ('none',) * (depth + 1), 'single'
+        yield par, (None,) + tuple('gen' if i % 3 == 0 else 'plain' for i in range(depth)), ('none',) * (depth + 1), 'again'
+
+
 def build(program):
     par, edges, marks, variant = program
     n = len(par)
@@ -188,7 +205,8 @@ def execute(program):
     ghost.World.observe_names = ['n%d_complete' % i for i in range(len(par))] + ['exception']
     try:
         script = [None, go] + (['quiet', go] if variant == 'again' else [])
-        w = ghost.RunWorld(build(program), script=script, horizon=60 if variant != 'again' else 120)
+        big = max(1, len(par) // 10)
+        w = ghost.RunWorld(build(program), script=script, horizon=(60 if variant != 'again' else 120) * big)
     finally:
         ghost.World.observe_names = None
     w.lazy = True             # once the roots are fired the library alone decides how long the loop idles ...
@@ -268,7 +286,7 @@ def _work(part, nparts, payload):
     tier, seed = payload
     core.quiet_stderr()
     st = core.Stats()
-    for idx, program in enumerate(itertools.islice(itertools.chain(programs(tier), programs_call(tier), programs_side(tier)), part, None, nparts)):
+    for idx, program in enumerate(itertools.islice(itertools.chain(programs_scale(tier), programs(tier), programs_call(tier), programs_side(tier)), part, None, nparts)):
         w, res = execute(program)
         st.executions += 1
         st.transitions += len(w.log)
@@ -294,7 +312,7 @@ def _work(part, nparts, payload):
 
 
 def run(tier, seed, workers):
-    total = sum(1 for _ in programs(tier)) + sum(1 for _ in programs_call(tier)) + sum(1 for _ in programs_side(tier))
+    total = sum(1 for _ in programs(tier)) + sum(1 for _ in programs_call(tier)) + sum(1 for _ in programs_side(tier)) + sum(1 for _ in programs_scale(tier))
     st = core.parallel(_work, (tier, seed), workers, nparts=workers * 8)
     probe = ((None, 0, 1), (None, 'gen', 'plain'), ('none', 'none', 'stop'), 'single')
     if execute(probe)[0].log != execute(probe)[0].log:
